@@ -398,6 +398,8 @@ func propC06(c *Check) {
 	c.Rule("R5", "queue writers: other writers of the queues only append at the tail")
 	c.Rule("R6", "matured unlocks enter the hand-over queue in maturity order, each exactly once: the sweep collects every entry it visits, in walk order, removes it and appends the collected unlocks at the tail (C15/R2)")
 	c.Rule("R7", "claimed rewards are handed over once: a claim queues exactly what the record holds and clears it before the next request is looked at (C12/R3)")
+	c.Rule("R8", "a paid or refunded withdrawal is queued once: each terminal status write is paired with exactly one notice of that id, and ids already in a terminal state add none (C05/R2)")
+	c.Depend("R8", "C05", propC05, map[string]bool{"R2": true}, "a withdrawal id appended to the paid / rejected queue twice is handed over twice")
 	c.Depend("R7", "C12", propC12, map[string]bool{"R3": true}, "a reward queued twice for one accrual is a duplicated hand-over")
 	c.Depend("R6", "C15", propC15, map[string]bool{"R2": true}, "an entry skipped while the walk goes on is overtaken by later-matured unlocks (first-in-first-out within the kind) or stranded")
 
